@@ -250,6 +250,12 @@ def item_schema(items_obj, j):
     return it
 
 
+def outcome_of(e, v):
+    from statham.schema.elements.composition import _attempt_schema
+    from statham.schema.elements.base import UNBOUND_PROPERTY
+    return _attempt_schema(e, v, UNBOUND_PROPERTY)
+
+
 def rbd(x):
     from statham.schema.validation import base
     if x is True:
